@@ -448,6 +448,8 @@ class World(object):
                                           {"clean": True, "keepalive": 0, "level": 4, "clientId": "cid-retry", "extra": {}, "why": "retry"})
                         finally:
                             self.depth -= 1
+                    if self.cfg.re_disc_on == "fail" and op == "publish":
+                        self._re_disconnect(c, "fail")     # an application that gives up on the first failed publish
                     if (self.cfg.re_pub_on_fail and op == "publish" and self.depth == 0
                             and not self.ended and info.get("why") != "refail"):
                         self.depth += 1
@@ -475,6 +477,7 @@ class World(object):
         """An application that disconnects from inside one of its callbacks."""
         if self.depth or self.ended or self.disc_done:
             return
+        c = self.cur.get(c.a, c)        # the application talks to its current protocol object
         self.disc_done = True
         self.depth += 1
         try:
